@@ -243,7 +243,10 @@ def work(job):
         out["unparsable"] = stdout[-600:]
         return out
     if not res or nans != len(states) or len(res) != len(states):
+        # never happens on the unchanged tree: some non-query command (assert, push, pop, set-option) answered, e.g.
+        # "name already exists" for a name whose level was popped -- the script's reading of the history is not the solver's
         cnt("misaligned-output")
+        out["ties"].append(("output-misaligned", "%d answers for %d query commands; stdout: %s" % (nans, len(states), stdout[:400]), dict(script=text)))
         return out
     logic, decls = meta["logic"], sc.decl_lines(text)
     blocks = cc.parse_core_trace(tr) if hook else []
